@@ -38,14 +38,22 @@ def sample_args(rng, name, cheb, tier, degree=None):
     fam = REG[name][1]
     par = REG[name][2]
     big = tier != "quick"
+    corner = rng.random() < 0.2          # ends of the documented ranges, deliberately (not left to sampling)
     if fam in ("cos", "sin"):
         tau = float(rng.uniform(0.5, 30 if not big else 60)) if cheb else float(rng.uniform(0.5, 12))
         eps = float(10 ** rng.uniform(-8 if cheb else -4, -0.4))
+        if corner:
+            tau = float(rng.choice([0.01, 0.5, 1.0, tau, 30.0 if cheb else 12.0] + ([200.0] if (cheb and big) else [])))
+            eps = float(rng.choice([0.5, eps, 1e-10 if cheb else 1e-4]))
         return {"tau": tau, "epsilon": eps}
     if fam == "inv":
         kappa = float(rng.uniform(1.5, 6 if not big else 10)) if cheb else float(rng.uniform(1.5, 3.0))
+        if corner:
+            kappa = float(rng.choice([1.5, 1.5, 1.6, 2.0, kappa]))
         while True:
             eps = float(10 ** rng.uniform(-4, -0.5))
+            if corner and rng.random() < 0.6:
+                eps = float(rng.choice([0.5, 0.45, 0.4]))
             if kappa ** 2 * math.log(kappa / eps) <= (500 if cheb else 45):
                 break
         return {"kappa": kappa, "epsilon": eps}
@@ -84,6 +92,42 @@ def sample_args(rng, name, cheb, tier, degree=None):
     if cheb:
         a["cheb_samples"] = int(max(20, 2 * degree + 2))
     return a
+
+
+def corner_args(name, cheb):
+    """argument tuples at the ends of the documented ranges (smallest / largest size, shape parameters at their
+    limits): visited deliberately by every generator check, not left to sampling"""
+    fam, par = REG[name][1], REG[name][2]
+    if fam in ("cos", "sin"):
+        hi, tight = (30.0, 1e-10) if cheb else (12.0, 1e-4)
+        return [{"tau": t, "epsilon": e} for t, e in ((0.01, 0.5), (0.01, tight), (1.0, 0.5), (hi, 0.5), (hi, tight), (2.0, 0.1))]
+    if fam == "inv":
+        l = [(1.5, 0.5), (1.5, 0.4), (1.6, 0.5), (1.5, 1e-4), (3.0, 0.5)]
+        if cheb:
+            l += [(10.0, 0.5), (6.0, 1e-4)]
+        return [{"kappa": k, "epsilon": e} for k, e in l]
+    if fam == "invrect":
+        return [{"degree": 2, "delta": 1.0, "kappa": 1.5, "epsilon": 0.3}, {"degree": 4, "delta": 4.0, "kappa": 1.5, "epsilon": 0.3}]
+    dmin = 2 if par == 0 else 1
+    dmax = 60 if cheb else 24
+    dmax -= (dmax - par) % 2
+    shapes = {
+        "sign": [{"delta": 1.0}, {"delta": 12.0}], "threshold": [{"delta": 1.0}, {"delta": 12.0}], "phase_estimation": [{"delta": 1.0}, {"delta": 12.0}],
+        "rect": [{"delta": 1.0, "kappa": 2.0, "epsilon": 0.3}, {"delta": 6.0, "kappa": 6.0, "epsilon": 0.01}],
+        "linear_amplification": [{"gamma": 0.08, "kappa": 4.0}, {"gamma": 0.4, "kappa": 15.0}],
+        "gibbs": [{"beta": 0.5}, {"beta": 8.0}],
+        "efilter": [{"delta": 0.08, "max_scale": 1.0}, {"delta": 0.5, "max_scale": 0.3}],
+        "relu": [{"delta": 0.05, "max_scale": 1.0}, {"delta": 0.6, "max_scale": 0.3}],
+        "softplus": [{"delta": 0.05, "kappa": 0.5, "max_scale": 1.0}, {"delta": 0.6, "kappa": 8.0, "max_scale": 0.3}],
+    }[name]
+    out = []
+    for d in (dmin, dmin + 2, dmax):
+        for sh in shapes:
+            a = dict(sh, degree=d)
+            if cheb:
+                a["cheb_samples"] = int(max(20, 2 * d + 2))
+            out.append(a)
+    return out
 
 
 class Recorder:
@@ -152,10 +196,26 @@ def recording(PL):
             PL._argmax_abs = o_arg
 
 
-def call(PL, name, args, eb, rsc, cb, record=False, positional_degree=False):
-    """run generate(); returns dict(status, coefs, scale, raw_type, rec)"""
-    cls = getattr(PL, REG[name][0])
+def ctor_form(name, args, eb, rsc, cb):
+    """constructor keywords for this request: generators are built as Cls(), Cls(verbose=False) or
+    Cls(verbose=True); which one is a fixed function of the request, so that a replay uses the same"""
+    import hashlib
+    h = int(hashlib.sha1(repr((name, sorted(args.items()), eb, rsc, cb)).encode()).hexdigest(), 16) % 3
+    return [{}, {"verbose": False}, {"verbose": True}][h]
+
+
+def call(PL, name, args, eb, rsc, cb, record=False, positional_degree=False, return_coef=None):
+    """run generate(); returns dict(status, coefs, scale, raw_type, rec).  return_coef: None = not passed
+    (library default), True / False = passed explicitly (False: the polynomial OBJECT is returned; its
+    coefficients are Chebyshev coefficients whatever chebyshev_basis says, and no scale comes with it)"""
+    cls0 = getattr(PL, REG[name][0])
+    ck = ctor_form(name, args, eb, rsc, cb)
+
+    def cls():
+        return cls0(**ck)
     kw = dict(args)
+    if return_coef is not None and REG[name][1] in ("cos", "sin", "inv"):
+        kw["return_coef"] = bool(return_coef)
     pos = []
     if positional_degree and "degree" in kw:
         pos = [kw.pop("degree")]
@@ -178,16 +238,25 @@ def call(PL, name, args, eb, rsc, cb, record=False, positional_degree=False):
         r, scale = r
         scale = float(np.asarray(scale, dtype=float).reshape(-1)[0])
     c = getattr(r, "coef", r)
-    return {"status": "ok", "coefs": np.asarray(c), "scale": scale, "raw_type": raw, "rec": rec}
+    return {"status": "ok", "coefs": np.asarray(c), "scale": scale, "raw_type": raw, "rec": rec, "constructor": ck,
+            "object_form": hasattr(r, "coef")}
 
 
 def enc_opts(eb, rsc, cb):
     return "%d %d %d" % (int(eb), int(rsc), int(cb))
 
 
+class OracleMissing(Exception):
+    """the run did not call the numerical routine whose result is the model's oracle parameter"""
+
+
 def model_line(drv, name, args, eb, rsc, cb, rec, out):
     """ask the oracle-parametrised model for what generate() should return given the recorded oracle values"""
     fam, par = REG[name][1], REG[name][2]
+    if rec is None or (fam == "erf" and (not rec.fit or (eb and not rec.xopt))) or (fam in ("cos", "sin") and not rec.jv) \
+            or (fam == "inv" and (not rec.binom or (eb and not rec.xopt))):
+        raise OracleMissing("%s: generate() did not call %s" % (name, {"erf": "numpy chebfit / approximate_taylor_polynomial (or the maximiser)", "cos": "scipy.special.jv",
+                                                                        "sin": "scipy.special.jv", "inv": "scipy.special.binom (or the optimiser)"}.get(fam, "its oracle")))
     if fam == "erf":
         kind, fit = rec.fit[-1]
         ms = args.get("max_scale", DEFAULT_MAX_SCALE[name])
@@ -253,6 +322,12 @@ def compare_with_model(name, cb, out, mod):
         return "model refuses (%s) but generate() returned" % mod["err"]
     c = [F(float(x)) for x in np.asarray(out["coefs"], dtype=float)]
     m = mod["coefs"]
+    if fam in ("cos", "sin", "inv", "invrect") and len(c) != len(m):
+        # no degree is requested from these generators: compare as polynomials (NumPy's series arithmetic trims
+        # trailing zero coefficients, e.g. 1/x with kappa=1.6, epsilon=0.4 where the top tail sum is empty)
+        n = max(len(c), len(m))
+        c = c + [Fraction(0)] * (n - len(c))
+        m = m + [Fraction(0)] * (n - len(m))
     if len(c) != len(m):
         return "length %d vs model %d" % (len(c), len(m))
     if (out["scale"] is None) != (mod["scale"] is None):
